@@ -112,6 +112,11 @@ def one_case(spec):
     return out
 
 
+def optimizer_on(tag: str, version: int) -> bool:
+    """does the option tag of a mismatch (`ss=<scratch_slots> fp=... asm=...`) run the slot optimiser at this version?"""
+    return "ss=True" in tag or ("ss=None" in tag and version >= 9)
+
+
 def multistore_signature(teal_unoptimised: str) -> bool:
     """Trigger shape of the known optimiser defect (known_findings: O3.4): a slot whose single load directly follows
     a store of it, while the slot is also stored elsewhere."""
